@@ -115,6 +115,14 @@ Reach(g, R) == LET R0 == R \cap 1..N(g) IN ReachFrom(g, R0, R0)
 OfKind(g, S, K) == {x \in S : g.kind[x] \in K}
 KindOf(g, x) == IF x \in 1..N(g) THEN g.kind[x] ELSE "?"
 
+\* The documented back references are only "not part of the copy" for the route that documents them (Thin:
+\* extract_tree).  For every other depth an attribute holding such a reference is ordinary instance state.
+AsJudged(g, d) ==
+    IF d = "Thin" THEN g
+    ELSE [g EXCEPT !.succ = [i \in 1..Len(g.succ) |-> g.succ[i] \o
+                               LET q == SelectSeq(g.lsucc, LAMBDA f : f.f = i) IN [k \in 1..Len(q) |-> q[k].t]],
+                   !.lsucc = <<>>]
+
 \* the namespace object(s) of a root: the root itself or its direct successor(s) of kind Namespace
 NsSet(g, r) == IF KindOf(g, r) = "Namespace" THEN {r} ELSE OfKind(g, Succ(g, r), {"Namespace"})
 
@@ -254,6 +262,10 @@ KeepSet(g, d, src, route, bug) ==
       [] bug = "share_comments" -> base \cup OfKind(g, Reach(g, {src}), {"list"})
       \* a namespace configured as immutable (is_mutable = False) is treated as a value and shared by deep copies
       [] bug = "locked_ns_shared" /\ d = "Deep" -> Reach(g, NsSet(g, src))
+      \* an object of one member that is referenced from another member (a cross-reference inside the copied
+      \* container, e.g. the node an extracted tree's node was extracted from) is kept instead of copied
+      [] bug = "xref_target_kept" /\ d \notin {"Shallow", "Alias"} ->
+            base \cup {y \in OfKind(g, Reach(g, {src}), {"Node"}) : \E x \in OfKind(g, Reach(g, {src}), {"Node"}) : y \in CSeqToSet(g.succ[x])}
       [] bug = "thin_shares_edge" /\ d = "Thin" -> base \cup OfKind(g, Reach(g, {src}), {"Edge"})
       [] bug = "shallow_deep_members" /\ d = "Shallow" -> Reach(g, NsSet(g, src))
       [] bug = "clone1_shares_trees" /\ d = "TNS" /\ route = "clone1" -> base \cup Reach(g, OfKind(g, Reach(g, {src}) \ {src}, {"Tree"}))
